@@ -993,3 +993,79 @@ func init() {
 			return obs
 		}})
 }
+
+func init() {
+	register(&Rule{ID: "FMT.strip-no-comment-layout", Floor: 1,
+		Doc: "in the printer a line break that exists only to carry a comment (a newline written on the true edge of a test `len(Meta(x).LeadingComments) > 0`) is written only when comments are not being stripped: that edge also entails !cfg.StripComments — otherwise the break survives the first pass without its comment and disappears on the second, and Format is not idempotent under StripComments",
+		Run: func(c *Ctx) []Obligation {
+			lcField := c.LookupField("internal/fmtmeta.Meta.LeadingComments")
+			stripFld := c.LookupField("formatter.Config.StripComments")
+			nl := c.LookupMethod("formatter.printer.newline")
+			if lcField == nil || stripFld == nil || nl == nil {
+				return []Obligation{anchorMissing("FMT.strip-no-comment-layout", "Meta.LeadingComments / Config.StripComments / printer.newline")}
+			}
+			var obs []Obligation
+			for _, u := range c.Funcs(func(p string) bool { return rel(p) == "formatter" }) {
+				sig := u.Obj.Type().(*types.Signature)
+				if sig.Recv() == nil || !strings.HasSuffix(sig.Recv().Type().String(), "formatter.printer") {
+					continue
+				}
+				info := u.Pkg.TypesInfo
+				fc := c.cfgOf(u, nil)
+				ord := &ordinal{}
+				cls := func(e ast.Expr) (string, bool) {
+					e = ast.Unparen(e)
+					switch x := e.(type) {
+					case *ast.BinaryExpr:
+						if ce, ok := ast.Unparen(x.X).(*ast.CallExpr); ok {
+							if id, ok := ast.Unparen(ce.Fun).(*ast.Ident); ok && id.Name == "len" && len(ce.Args) == 1 && FieldOfSelector(info, ce.Args[0]) == lcField {
+								if k, ok := intConst(info, x.Y); ok && k == 0 {
+									switch x.Op {
+									case token.GTR, token.NEQ:
+										return "hasLC", false
+									case token.EQL, token.LEQ:
+										return "hasLC", true
+									}
+								}
+							}
+						}
+					case *ast.SelectorExpr:
+						if FieldOfSelector(info, x) == stripFld {
+							return "strip", false
+						}
+					}
+					return "", false
+				}
+				for _, b := range fc.G.Blocks {
+					cond := fc.CondOf(b)
+					if cond == nil || !fc.Live(b) {
+						continue
+					}
+					for k := 0; k < 2; k++ {
+						if !fc.edgeEntails(b, k, cls, func(v map[string]bool) bool { return v["$has:hasLC"] && v["hasLC"] }) {
+							continue
+						}
+						// does the successor block write a newline?
+						writes := false
+						for _, n := range b.Succs[k].Nodes {
+							for _, ce := range callsIn(n, false) {
+								if originOf(Callee(info, ce)) == nl {
+									writes = true
+								}
+							}
+						}
+						if !writes {
+							continue
+						}
+						construct := ord.next("line break for a comment")
+						if fc.edgeEntails(b, k, cls, func(v map[string]bool) bool { return v["$has:strip"] && !v["strip"] }) {
+							obs = append(obs, mkOb(c, "FMT.strip-no-comment-layout", u, construct, cond, Proved, "the edge also entails !StripComments", true))
+						} else {
+							obs = append(obs, mkOb(c, "FMT.strip-no-comment-layout", u, construct, cond, Violated, "a newline is written because the node has leading comments even when comments are stripped: \"( ; c\\n a)\" formats to \"(\\n a)\" under StripComments and then to \"(a)\"", true))
+						}
+					}
+				}
+			}
+			return obs
+		}})
+}
